@@ -3,7 +3,8 @@
 Case input (tree): [rels, ops]
   rels : [id, kind, a, b, o2m, flags]   kind 0: class a holds a foreign key to class b (many-to-one attribute on a
                                         if flags bit0, one-to-many collection on b if o2m; back_populates when both;
-                                        flags bit1: cascade="all, delete-orphan" on the collection - oracle only);
+                                        flags bit1: cascade="all, delete-orphan" on the collection - oracle only;
+                                        flags bit2: post_update=True - invisible in the model: same rows, other statements);
                                         kind 1: many-to-many a <-> b with backref
   ops  : [0, o, cls, v] o = cls(id=o+1, data=v); session.add(o)      [1, o, v] o.data = v
          [2, r, c, p|[]] set the parent of c along r (attribute or collection API, chosen by parity)
@@ -38,7 +39,9 @@ TRUSTED = [
     "SQLite is the referee for row contents",
 ]
 ASSUMPTIONS = [
-    "primary keys are supplied and never changed; session.delete(o) only when every reference to o has been "
+    "primary keys are supplied (database-generated in the auto:* families) and changed only in the composite "
+    "natural key family (FlushSync.v: passive_updates=False, one key column per assignment, a key never collides "
+    "with a key another parent has or had at the last flush); session.delete(o) only when every reference to o has been "
     "flushed and the referring relationships have their collection side (otherwise the ORM documents that the "
     "children keep their key); objects are not expunged; no rollback inside the history (C32/C33)",
     "autoflush off, expire_on_commit off (the in-memory graph stays what the operations made it)",
@@ -47,6 +50,7 @@ ANCHORS = [
     ("lib/sqlalchemy/orm/persistence.py", "_collect_insert_commands"),
     ("lib/sqlalchemy/orm/persistence.py", "_collect_update_commands"),
     ("lib/sqlalchemy/orm/persistence.py", "_collect_delete_commands"),
+    ("lib/sqlalchemy/orm/sync.py", "_source_modified"),
     ("lib/sqlalchemy/orm/sync.py", "_populate"),
     ("lib/sqlalchemy/orm/sync.py", "_clear"),
     ("lib/sqlalchemy/orm/dependency.py", "_OneToManyDP.process_saves"),
@@ -68,8 +72,8 @@ def translate(repo, outdir):
 
 
 # ---------------------------------------------------------------- schema families
-def _fk(i, a, b, m2o=1, o2m=1, orphan=0):
-    return [i, 0, a, b, o2m, m2o | orphan << 1]
+def _fk(i, a, b, m2o=1, o2m=1, orphan=0, post=0):
+    return [i, 0, a, b, o2m, m2o | orphan << 1 | post << 2]
 
 
 def _mm(i, a, b):
@@ -89,6 +93,46 @@ FAMILIES = {
     "mixed": (2, [_fk(0, 1, 0), _mm(1, 0, 1), _fk(2, 0, 0)]),
 }
 ORPHAN = (2, [_fk(0, 1, 0, orphan=1)])
+# database-generated primary keys (the foreign key can only be synchronised after the parent's INSERT) and
+# post_update relationships: the model is the same, the statement order the rows depend on is not
+AUTOPK = {
+    "auto:tree-post+next": (1, [_fk(0, 0, 0, m2o=0, post=1), _fk(1, 0, 0, o2m=0)]),
+    "auto:tree+next": (1, [_fk(0, 0, 0), _fk(1, 0, 0, o2m=0)]),
+    "auto:o2m-post": (2, [_fk(0, 1, 0, post=1), _fk(1, 0, 1, o2m=0)]),
+    "auto:chain3": (3, [_fk(0, 1, 0), _fk(1, 2, 1)]),
+    "auto:m2m": (2, [_mm(0, 0, 1)]),
+}
+
+
+# scripts that are always part of the run: one per mechanism that a random sample could miss
+ALWAYS = [
+    # post_update collection, the pending parent waits for another pending row (database-generated keys)
+    ("auto:tree-post+next", [[0, 0, 0, 0], [0, 1, 0, 1], [0, 2, 0, 2], [2, 1, 0, 1], [2, 0, 2, 0], [6]]),
+    ("auto:tree-post+next", [[0, 0, 0, 0], [0, 1, 0, 1], [0, 2, 0, 2], [0, 3, 0, 3], [2, 0, 2, 0], [2, 0, 3, 0], [2, 1, 0, 1], [6]]),
+    ("auto:tree+next", [[0, 0, 0, 0], [0, 1, 0, 1], [0, 2, 0, 2], [2, 1, 0, 1], [2, 0, 2, 0], [6]]),
+    # a member removed from a many-to-many collection and the owner deleted in the same flush
+    ("m2m", [[0, 0, 0, 0], [0, 1, 1, 1], [0, 2, 1, 2], [3, 0, 0, 1], [3, 0, 0, 2], [6], [4, 0, 0, 1], [5, 0], [6]]),
+    ("m2m", [[0, 0, 0, 0], [0, 1, 1, 1], [0, 2, 0, 2], [3, 0, 0, 1], [3, 0, 2, 1], [6], [4, 0, 0, 1], [5, 1], [6]]),
+    ("m2m-self", [[0, 0, 0, 0], [0, 1, 0, 1], [0, 2, 0, 2], [3, 0, 0, 1], [3, 0, 0, 2], [6], [4, 0, 0, 2], [5, 0], [6]]),
+]
+
+
+def _fresh(ncls, rels, depth):
+    """three pending objects, every sequence of <= depth re-parenting operations, one flush"""
+    pre = [[0, k, k % ncls, k] for k in range(3)]
+    alphabet = []
+    for rel in rels:
+        if rel[1] != 0:
+            continue
+        for c_ in range(3):
+            for p_ in range(3):
+                if c_ != p_ and c_ % ncls == rel[2] and p_ % ncls == rel[3]:
+                    alphabet.append([2, rel[0], c_, p_])
+    out = []
+    for d in range(1, depth + 1):
+        for seq in itertools.product(alphabet, repeat=d):
+            out.append(pre + [list(o) for o in seq] + [[6]])
+    return out
 
 
 class Mirror:
@@ -289,14 +333,28 @@ def gen_cases(rng, tier):
     cases = []
     for name, (ncls, rels) in FAMILIES.items():
         ss = _small_scope(ncls, rels, 2 if quick else 3)
-        cap = 40 if quick else 2500
+        cap = 25 if quick else 2500
         if len(ss) > cap:
             ss = rng.sample(ss, cap)
         for ops in ss:
             cases.append({"in": [rels, ops], "kind": "small:" + name, "ncls": ncls})
-        for _ in range(40 if quick else 1500):
+        for _ in range(25 if quick else 1500):
             ops = _rand_history(rng, ncls, rels, rng.randint(4, 10 if quick else 40))
             cases.append({"in": [rels, ops], "kind": "rand:" + name, "ncls": ncls})
+    for name, (ncls, rels) in AUTOPK.items():
+        ss = _fresh(ncls, rels, 2 if quick else 3)
+        cap = 20 if quick else 2000
+        if len(ss) > cap:
+            ss = rng.sample(ss, cap)
+        for ops in ss:
+            cases.append({"in": [rels, ops], "kind": "fresh:" + name, "ncls": ncls, "autopk": True})
+        for _ in range(8 if quick else 600):
+            ops = _rand_history(rng, ncls, rels, rng.randint(4, 10 if quick else 40))
+            cases.append({"in": [rels, ops], "kind": "rand:" + name, "ncls": ncls, "autopk": True})
+    for name, ops in ALWAYS:
+        ncls, rels = (AUTOPK if name in AUTOPK else FAMILIES)[name]
+        cases.append({"in": [rels, ops], "kind": "always:" + name, "ncls": ncls, "autopk": name in AUTOPK})
+    cases += _nat_cases(rng, quick)
     # delete-orphan: oracle only (the model has no cascades)
     ncls, rels = ORPHAN
     for _ in range(30 if quick else 600):
@@ -305,7 +363,219 @@ def gen_cases(rng, tier):
     return cases
 
 
+# ---------------------------------------------------------------- composite natural keys (FlushSync.v)
+class NatMirror:
+    """the preconditions of FlushSync.v [nstep]"""
+
+    def __init__(self, n):
+        self.n = n
+        self.key, self.old, self.children = {}, {}, set()
+
+    def free(self, i, k):
+        return all(j == i or (self.key[j] != k and self.old[j] != k) for j in self.key)
+
+    def ok(self, op):
+        t = op[0]
+        if t == 0:
+            return op[1] not in self.key and len(op[2]) == self.n and self.free(op[1], list(op[2]))
+        if t == 1:
+            return op[1] not in self.children
+        if t == 2:
+            return op[1] in self.children and (op[2] is None or op[2] in self.key)
+        if t == 3:
+            if op[1] not in self.key or not op[2] < self.n:
+                return False
+            k = list(self.key[op[1]])
+            k[op[2]] = op[3]
+            return self.free(op[1], k)
+        return True
+
+    def do(self, op):
+        t = op[0]
+        if t == 0:
+            self.key[op[1]] = list(op[2])
+            self.old[op[1]] = list(op[2])
+            self.pending = getattr(self, "pending", set()) | {op[1]}
+        elif t == 1:
+            self.children.add(op[1])
+        elif t == 3:
+            self.key[op[1]][op[2]] = op[3]
+            if op[1] in getattr(self, "pending", set()):
+                self.old[op[1]] = list(self.key[op[1]])
+        elif t == 6:
+            self.pending = set()
+            for i in self.key:
+                self.old[i] = list(self.key[i])
+
+
+def _nat_history(rng, n, nops):
+    m = NatMirror(n)
+    ops = []
+    np_, nc_ = 0, 0
+    tries = 0
+    while len(ops) < nops and tries < nops * 8:
+        tries += 1
+        r = rng.random()
+        if r < 0.15 or np_ == 0:
+            op = [0, np_, [rng.randint(0, 3) for _ in range(n)]]
+        elif r < 0.3 or nc_ == 0:
+            op = [1, nc_]
+        elif r < 0.5:
+            op = [2, rng.randrange(nc_), rng.choice(list(range(np_)) + [None])]
+        elif r < 0.8:
+            op = [3, rng.randrange(np_), rng.randrange(n), rng.randint(0, 3)]
+        else:
+            op = [6]
+        if not m.ok(op):
+            if rng.random() < 0.9 or op[0] in (0, 1):
+                continue
+        else:
+            if op[0] == 0:
+                np_ += 1
+            elif op[0] == 1:
+                nc_ += 1
+            m.do(op)
+        ops.append(op)
+    ops.append([6])
+    return ops
+
+
+def _nat_directed(n):
+    """a parent with two flushed children; every single key column changed on its own, then pairs of columns"""
+    out = []
+    pre = [[0, 0, list(range(1, n + 1))], [0, 1, [9] * n], [1, 0], [1, 1], [1, 2], [2, 0, 0], [2, 1, 0], [2, 2, 1], [6]]
+    for j in range(n):
+        out.append(pre + [[3, 0, j, 7], [6]])
+        out.append(pre + [[3, 0, j, 7], [2, 2, 0], [6]])
+        out.append(pre + [[3, 0, j, 7], [2, 0, None], [6]])
+        for j2 in range(n):
+            if j2 != j:
+                out.append(pre + [[3, 0, j, 7], [3, 0, j2, 8], [6]])
+                out.append(pre + [[3, 0, j, 7], [6], [3, 0, j2, 8], [6]])
+    return out
+
+
+def _nat_cases(rng, quick):
+    cases = []
+    for n in (1, 2, 3):
+        for ops in _nat_directed(n):
+            cases.append({"in": [7, n, ops], "kind": "natpk:directed"})
+        for _ in range(15 if quick else 1500):
+            cases.append({"in": [7, n, _nat_history(rng, n, rng.randint(4, 10 if quick else 40))], "kind": "natpk:rand"})
+    return cases
+
+
+def _nat_impl(c):
+    import warnings
+
+    from sqlalchemy import Column, ForeignKeyConstraint, Integer, create_engine, inspect, select
+    from sqlalchemy.orm import Session, declarative_base, relationship
+    from sqlalchemy.pool import StaticPool
+
+    warnings.simplefilter("ignore")
+    _, n, ops = c["in"]
+    ops = [[x if x != [] else None for x in o] for o in ops]
+    _last.clear()
+    Base = declarative_base()
+    pa = {"__tablename__": "parent"}
+    for j in range(n):
+        pa["k%d" % j] = Column(Integer, primary_key=True)
+    pa["children"] = relationship("Child", back_populates="parent", passive_updates=False)
+    P = type("Parent", (Base,), pa)
+    ca = {"__tablename__": "child", "id": Column(Integer, primary_key=True)}
+    for j in range(n):
+        ca["f%d" % j] = Column(Integer)
+    ca["__table_args__"] = (ForeignKeyConstraint(["f%d" % j for j in range(n)], ["parent.k%d" % j for j in range(n)]),)
+    ca["parent"] = relationship("Parent", back_populates="children", passive_updates=False)
+    C = type("Child", (Base,), ca)
+    eng = create_engine("sqlite://", poolclass=StaticPool)
+    Base.metadata.create_all(eng)
+    sess = Session(eng, autoflush=False, expire_on_commit=False)
+    mir = NatMirror(n)
+    pars, chs, cpar = {}, {}, {}
+    snaps = []
+    err = None
+    NUL = -1000000
+
+    def keyof(p):
+        return [getattr(p, "k%d" % j) for j in range(n)]
+
+    try:
+        for op in ops:
+            if not mir.ok(op):
+                continue
+            t = op[0]
+            if t == 0:
+                p = P(**{"k%d" % j: v for j, v in enumerate(op[2])})
+                pars[op[1]] = p
+                sess.add(p)
+            elif t == 1:
+                ch = C(id=op[1] + 1)
+                chs[op[1]] = ch
+                sess.add(ch)
+            elif t == 2:
+                ch = chs[op[1]]
+                par = pars[op[2]] if op[2] is not None else None
+                if (op[1] + (op[2] or 0)) % 2 == 0 or par is None and cpar.get(op[1]) is None:
+                    ch.parent = par
+                else:
+                    old = cpar.get(op[1])
+                    if old is not None and (par is None or old != op[2]) and ch in pars[old].children:
+                        pars[old].children.remove(ch)
+                    if par is not None and ch not in par.children:
+                        par.children.append(ch)
+                cpar[op[1]] = op[2]
+            elif t == 3:
+                setattr(pars[op[1]], "k%d" % op[2], op[3])
+            elif t == 6:
+                sess.flush()
+                conn = sess.connection()
+                kmap = {tuple(keyof(p)): i for i, p in pars.items()}
+                prow = sorted([kmap.get(tuple(r), 1000000)] + list(r)
+                              for r in conn.exec_driver_sql("select %s from parent" % ", ".join("k%d" % j for j in range(n))).fetchall())
+                crow = []
+                for r in conn.exec_driver_sql("select id, %s from child" % ", ".join("f%d" % j for j in range(n))).fetchall():
+                    fk = list(r[1:])
+                    crow.append([r[0] - 1, [] if all(v is None for v in fk) else [NUL if v is None else v for v in fk]])
+                snaps.append([prow, sorted(crow)])
+            mir.do(op)
+    except Exception as e:
+        err = "%s: %s" % (type(e).__name__, str(e)[:200])
+    viol = None
+    if err is None:
+        mem = {i: (keyof(ch.parent) if ch.parent is not None else None) for i, ch in chs.items() if inspect(ch).persistent}
+        memkids = {i: sorted(j for j, ch in chs.items() if ch in p.children) for i, p in pars.items() if inspect(p).persistent}
+        memkeys = {i: keyof(p) for i, p in pars.items() if inspect(p).persistent}
+        try:
+            sess.commit()
+        except Exception as e:
+            err = "commit: %s: %s" % (type(e).__name__, str(e)[:200])
+    sess.close()
+    if err is None:
+        s2 = Session(eng)
+        for i, want in mem.items():
+            ch = s2.get(C, i + 1)
+            got = [getattr(ch, "f%d" % j) for j in range(n)] if ch is not None else "no row"
+            if got != (want if want is not None else [None] * n):
+                viol = "child %d: foreign key columns %r, the key of its parent in memory is %r" % (i, got, want)
+        for i, kids in memkids.items():
+            p = s2.get(P, tuple(memkeys[i]))
+            got = sorted(x.id - 1 for x in p.children) if p is not None else "no row"
+            if got != kids:
+                viol = "parent %d (key %r): children %r in memory, %r reloaded" % (i, memkeys[i], kids, got)
+        s2.close()
+    else:
+        viol = "flush/commit failed: " + err
+    eng.dispose()
+    _last["viol"] = viol
+    if err is not None:
+        return [9, err[:60]]
+    return snaps
+
+
 def nontrivial(c):
+    if c["in"][0] == 7:
+        return any(o[0] == 3 for o in c["in"][2])
     ops = c["in"][1]
     fl = [i for i, o in enumerate(ops) if o[0] == 6]
     return len(fl) >= 2 and any(o[0] in (1, 2, 3, 4, 5) for o in ops[fl[0]:fl[-1]])
@@ -338,11 +608,11 @@ def _build(ncls, rels):
             col = ta.c["f%d" % i]
             if fl & 1:
                 setattr(cl[a], "r%d" % i, relationship(
-                    cl[b], foreign_keys=[col], remote_side=[tb.c.id], primaryjoin=col == tb.c.id,
+                    cl[b], foreign_keys=[col], remote_side=[tb.c.id], primaryjoin=col == tb.c.id, post_update=bool(fl >> 2 & 1),
                     back_populates=("c%d" % i) if o2m else None))
             if o2m:
                 setattr(cl[b], "c%d" % i, relationship(
-                    cl[a], foreign_keys=[col], remote_side=[col], primaryjoin=col == tb.c.id,
+                    cl[a], foreign_keys=[col], remote_side=[col], primaryjoin=col == tb.c.id, post_update=bool(fl >> 2 & 1),
                     cascade="all, delete-orphan" if fl >> 1 & 1 else "save-update, merge",
                     back_populates=("r%d" % i) if fl & 1 else None))
         else:
@@ -357,22 +627,28 @@ def _build(ncls, rels):
     return Base, cl, secs
 
 
-def _snapshot(conn, ncls, rels):
+def _snapshot(conn, ncls, rels, pkmap):
+    """table contents with primary keys translated to object numbers (pkmap[class][pk]); a key that belongs
+    to no object of the session is shown as 1000000 + key"""
+    relmap = {r[0]: r for r in rels}
+    tr = lambda k, v: pkmap[k].get(v, 1000000 + v)
     rows = []
     for k in range(ncls):
         cols = [r[0] for r in rels if r[1] == 0 and r[2] == k]
         for row in conn.exec_driver_sql("select id, data%s from t%d" % ("".join(", f%d" % i for i in cols), k)).fetchall():
-            fks = sorted([i, v - 1] for i, v in zip(cols, row[2:]) if v is not None)
-            rows.append([row[0] - 1, k, row[1], fks])
+            fks = sorted([i, tr(relmap[i][3], v)] for i, v in zip(cols, row[2:]) if v is not None)
+            rows.append([tr(k, row[0]), k, row[1], fks])
     secs = []
     for r in rels:
         if r[1] == 1:
             for l, rr in conn.exec_driver_sql("select l, r from s%d" % r[0]).fetchall():
-                secs.append([r[0], l - 1, rr - 1])
+                secs.append([r[0], tr(r[2], l), tr(r[3], rr)])
     return [sorted(rows), sorted(secs)]
 
 
 def impl(c):
+    if c["in"][0] == 7:
+        return _nat_impl(c)
     from sqlalchemy import create_engine, inspect, select
     from sqlalchemy.orm import Session
     from sqlalchemy.pool import StaticPool
@@ -390,13 +666,15 @@ def impl(c):
     objs = {}
     snaps = []
     err = None
+    flush_viol = None
+    pkmap = [dict() for _ in range(ncls)]
     try:
         for op in ops:
             if not mir.ok(op) and not (c.get("raw") and op[0] == 5 and mir.st.get(op[1]) == 2):
                 continue
             t = op[0]
             if t == 0:
-                o = cl[op[2]](id=op[1] + 1, data=op[3])
+                o = cl[op[2]](data=op[3]) if c.get("autopk") else cl[op[2]](id=op[1] + 1, data=op[3])
                 objs[op[1]] = o
                 sess.add(o)
             elif t == 1:
@@ -433,7 +711,28 @@ def impl(c):
                 sess.delete(objs[op[1]])
             elif t == 6:
                 sess.flush()
-                snaps.append(_snapshot(sess.connection(), ncls, rels))
+                pkmap = [dict() for _ in range(ncls)]
+                for k_, o_ in objs.items():
+                    if inspect(o_).persistent:
+                        pkmap[mir.cls[k_]][o_.id] = k_
+                snap = _snapshot(sess.connection(), ncls, rels, pkmap)
+                snaps.append(snap)
+                # the property, after every flush: the secondary rows are the many-to-many memberships of the
+                # objects that have a row (nothing left behind for a deleted object)
+                alive = {k_ for k_, o_ in objs.items() if inspect(o_).persistent and o_ not in sess.deleted}
+                want = set()
+                for i_, kind_, a_, b_, o2m_, fl_ in rels:
+                    if kind_ == 1:
+                        for k_ in alive:
+                            if isinstance(objs[k_], cl[a_]):
+                                for x_ in getattr(objs[k_], "m%d" % i_):
+                                    j_ = next((j for j, y in objs.items() if y is x_), None)
+                                    if j_ in alive:
+                                        want.add((i_, k_, j_))
+                got = set(tuple(x) for x in snap[1])
+                if got != want and flush_viol is None:
+                    flush_viol = "after flush %d the secondary rows are %s, the many-to-many members in memory %s" % (
+                        len(snaps), sorted(got), sorted(want))
             mir.do(op)
     except Exception as e:
         err = "%s: %s" % (type(e).__name__, str(e)[:200])
@@ -474,9 +773,12 @@ def impl(c):
     if err is None:
         s2 = Session(eng)
         loaded = {}
+        tr = lambda k, v: pkmap[k].get(v, 1000000 + v)
+        relmap2 = {r[0]: r for r in rels}
         for k in range(ncls):
             for o in s2.scalars(select(cl[k])).all():
-                loaded[o.id - 1] = o
+                loaded[tr(k, o.id)] = o
+        num = {id(o): k for k, o in loaded.items()}
         for k in sorted(loaded):
             o = loaded[k]
             fks = []
@@ -484,7 +786,7 @@ def impl(c):
                 if kind == 0 and isinstance(o, cl[a]):
                     v = getattr(o, "f%d" % i)
                     if v is not None:
-                        fks.append([i, v - 1])
+                        fks.append([i, tr(b, v)])
             graph.append([k, [j for j in range(ncls) if isinstance(o, cl[j])][0], o.data, sorted(fks)])
         # ---- the property itself: the reloaded graph is the in-memory graph
         if set(loaded) != set(mem):
@@ -496,22 +798,22 @@ def impl(c):
                     viol = "object %d: data %r in memory, %r reloaded" % (k, ent["data"], o.data)
                 for i, p in ent["fk"].items():
                     q = getattr(o, "r%d" % i)
-                    if (q.id - 1 if q is not None else None) != p:
-                        viol = "object %d: parent along r%d is %r in memory, %r reloaded" % (k, i, p, q.id - 1 if q is not None else None)
+                    if (num[id(q)] if q is not None else None) != p:
+                        viol = "object %d: parent along r%d is %r in memory, %r reloaded" % (k, i, p, num[id(q)] if q is not None else None)
                     v = getattr(o, "f%d" % i)
-                    if (v - 1 if v is not None else None) != p:
-                        viol = "object %d: foreign key column f%d is %r, the parent in memory is %r" % (k, i, v - 1 if v is not None else None, p)
+                    if (tr(relmap2[i][3], v) if v is not None else None) != p:
+                        viol = "object %d: foreign key column f%d is %r, the parent in memory is %r" % (k, i, v, p)
                 for i, l in ent["coll"].items():
                     for ch in l:
                         if ch in loaded:
                             v = getattr(loaded[ch], "f%d" % i)
-                            if (v - 1 if v is not None else None) != k:
+                            if (tr(relmap2[i][3], v) if v is not None else None) != k:
                                 viol = "object %d is in collection c%d of %d in memory, its foreign key column is %r" % (ch, i, k, v)
-                    q = sorted(x.id - 1 for x in getattr(o, "c%d" % i))
+                    q = sorted(num[id(x)] for x in getattr(o, "c%d" % i))
                     if q != l:
                         viol = "object %d: collection c%d is %r in memory, %r reloaded" % (k, i, l, q)
                 for (i, side), l in ent["mm"].items():
-                    q = sorted(x.id - 1 for x in getattr(o, ("m%d" if side == 0 else "n%d") % i))
+                    q = sorted(num[id(x)] for x in getattr(o, ("m%d" if side == 0 else "n%d") % i))
                     if q != l:
                         viol = "object %d: many-to-many %s%d is %r in memory, %r reloaded" % (k, "mn"[side], i, l, q)
         s2.close()
@@ -519,6 +821,8 @@ def impl(c):
             "KeyError", "AttributeError", "TypeError", "AssertionError", "IndexError"):
         viol = "flush/commit failed: " + err
     eng.dispose()
+    if flush_viol is not None and (viol is None or not viol.startswith("flush/commit failed")):
+        viol = flush_viol
     _last["viol"] = viol
     if err is not None:
         return [9, err[:60]]
@@ -530,6 +834,8 @@ def oracle(c, obs):
 
 
 def match_finding(c, what):
+    if c["in"][0] == 7:
+        return None
     rels, ops = c["in"]
     orphan = any(r[1] == 0 and r[5] >> 1 & 1 for r in rels)
     if orphan and ("collection c" in what or "objects in the session" in what):
@@ -560,7 +866,9 @@ LEVEL_NOTE = (
     "operations have preconditions (Flush.v step): delete only when all references to the object are flushed and "
     "come through relationships with a collection side and the object was not re-parented since the last flush; "
     "re-parenting only when no cycle arises among current and flushed links (otherwise CircularDependencyError: "
-    "C31). Not covered: primary key changes (_DetectKeySwitch, natural keys), joined/single inheritance, composite "
+    "C31). Primary key changes are covered for one-to-many/many-to-one with composite natural keys and "
+    "passive_updates=False only (FlushSync.v); not covered: _DetectKeySwitch (many-to-one without backref), "
+    "passive_updates=True, many-to-many key cascades, joined/single inheritance, composite "
     "attributes, association objects as such (they are ordinary classes with two foreign keys here), expunge, merge, "
     "delete/delete-orphan cascades (oracle-only family; the known pending-orphan finding lives there), rollback and "
     "savepoints inside a history, PostgreSQL/MariaDB. Trusted: Coq kernel, the hand transcription (pin + "
